@@ -108,10 +108,12 @@ func Run(file *paths.Path, profile string) (string, error) {
 		if !ok {
 			return "", fmt.Errorf("unknown directive '%s' in %s", opt.Name, opt.File)
 		}
+		before := profile
 		profile, err = drtv.Apply(opt, profile)
 		if err != nil {
 			return "", fmt.Errorf("%s %s: %w", drtv.Name(), opt.File, err)
 		}
+		prebuild.VerifTrace("directive", "name", drtv.Name(), "file", opt.File.String(), "raw", opt.Raw, "before", before, "after", profile)
 	}
 	return profile, nil
 }
